@@ -48,6 +48,10 @@ def main():
         mod = importlib.import_module(f"vf.{pid.lower()}")
         import gc
 
+        if os.environ.get("VERIF_SETERR"):  # probe: the library under a process-wide numpy error state
+            import numpy as _np
+
+            _np.seterr(all=os.environ["VERIF_SETERR"])
         gc.collect()
         gc.freeze()  # everything imported so far (numba, hypothesis, the harness) stays out of later collections
     except BaseException:
